@@ -558,7 +558,9 @@ func (r *run) conv(tDst, tSrc types.Type, x value) value {
 					if !ok {
 						panic(engineError{"string->[]rune with symbolic bytes"})
 					}
-					var res []value
+					// capacity = length (the runtime may round the capacity up to a
+					// size class; slicing beyond the length is treated as out of range)
+					res := make([]value, 0, utf8.RuneCountInString(s))
 					for _, c := range s {
 						res = append(res, mkBV(32, uint64(c)))
 					}
